@@ -105,6 +105,52 @@ def run(ctx):
     from maze_dataset.tokenization import MazeTokenizer, MazeTokenizerModular, TokenizationMode
 
     CLS = dict(LatticeMaze=LatticeMaze, TargetedLatticeMaze=TargetedLatticeMaze, SolvedMaze=SolvedMaze)
+    if ctx.shard % 2 == 1:
+        # history, before anything else is tokenized in this process: (a) coordinates of other numeric types (rounded float
+        # predictions, numpy floats) are turned into strings through the legacy tokenizers and the caller pads the lists it got back;
+        # (b) token streams that are NOT well formed (two-digit indices split into digits, as in a character-level export) are
+        # offered to the parsers, which refuse them, and the caller carries on
+        from maze_dataset import token_utils as _tu
+        with warnings.catch_warnings():
+            warnings.simplefilter("ignore")
+            for mode_h in TokenizationMode:
+                tk = MazeTokenizer(tokenization_mode=mode_h, max_grid_size=None)
+                for r in range(0, 21):
+                    for c in range(0, 21):
+                        if (r * 21 + c + ctx.shard) % 3:
+                            continue
+                        try:
+                            out = tk.coords_to_strings([np.array([float(r), float(c)]), (float(r), float(c))])
+                            if isinstance(out, list):
+                                out += ["<pad>"] * 2
+                                for o in out:
+                                    if isinstance(o, list):
+                                        o.append("<pad>")
+                            ctx.tally("c07:history:float-coordinates-stringified")
+                        except Exception:  # noqa: BLE001
+                            ctx.tally("c07:history:float-coordinates-refused(not judged)")
+            for r in range(0, 21):
+                for c in range(0, 21):
+                    if r < 10 and c < 10:
+                        continue
+                    rs = " ".join(str(r)); cs = " ".join(str(c))
+                    for bad in (f"({rs},{cs})", f"( {rs} , {cs} )", f"({rs} ,{c})", f"({r}, {cs})"):
+                        for fn in (getattr(_tu, "coord_str_to_tuple_noneable", None), getattr(_tu, "coord_str_to_tuple", None)):
+                            if fn is None:
+                                continue
+                            try:
+                                fn(bad)
+                            except Exception:  # noqa: BLE001
+                                pass
+                        try:
+                            _tu.strings_to_coords(["<PATH_START>", bad, "<PATH_END>"], when_noncoord="error")
+                        except Exception:  # noqa: BLE001
+                            pass
+                        try:
+                            MazeTokenizer(tokenization_mode=TokenizationMode.AOTP_UT_uniform, max_grid_size=None).strings_to_coords(f"<PATH_START> {bad} <PATH_END>", when_noncoord="error")
+                        except Exception:  # noqa: BLE001
+                            pass
+                        ctx.tally("c07:history:malformed-coordinate-tokens-offered")
     n_cases = 520 if ctx.quick else 10000
     for j in range(n_cases):
         if not ctx.mine(j):
